@@ -72,7 +72,7 @@ FLOORS = {
                       "table_updates_checked": 1200, "adaptive_updates": 100,
                       "state_invariant_checks": 10000, "history_twins": 400,
                       "file_roundtrips": 300, "poisoned_allocations": 3000,
-                      "mode_pairs_x_shapes_observed": 200},
+                      "mode_pairs_x_shapes_observed": 180},
               "cls": {"R1": 120, "R2": 120, "R3": 120, "R4": 120, "adaptive-on": 250,
                       "adaptive-off": 250, "nan:interval": 40, "nan:above": 40,
                       "nan:below": 40, "ev:adaptive-update": 80, "ev:extend": 200,
@@ -83,7 +83,7 @@ FLOORS = {
                          "table_updates_checked": 60000, "adaptive_updates": 5000,
                          "state_invariant_checks": 500000, "history_twins": 6000,
                          "file_roundtrips": 6000,
-                         "mode_pairs_x_shapes_observed": 256},
+                         "mode_pairs_x_shapes_observed": 192},
                  "cls": {"R1": 2000, "R2": 2000, "R3": 2000, "R4": 2000,
                          "ev:adaptive-update": 2000, "sub:Jb": 60, "sub:Jf": 60,
                          "sub:FreeEnergy": 60}},
@@ -337,22 +337,37 @@ def _applicable(ctx, real, info, exc, batches):
     """Mechanism predicates of the known defect classes for one table update."""
     fn = ctx.fn
     applicable = []
+    msg = str(exc) if exc is not None else ""
+    emptied = "at least 2" in msg          # CubicSpline got an empty table
+    unsorted = "strictly increasing" in msg
+    rp = np.asarray(real._interpolationPoints, dtype=float) if real.hasInterpolation() \
+        else np.array([])
     if info.get("op") == "extend":
         alo, ahi, last = M.InterpModel.arange_lengths(
             info["new_min"], info["new_max"], info["p_min"], info["p_max"],
             info["old_min"], info["old_max"])
-        if alo != info["n_lo"]:
+        # what is seen must fit the mechanism: either the spline constructor refused the
+        # abscissae, or the table really has one point more on that side
+        seen_lo = unsorted or (rp.size and int(np.sum(
+            rp <= info["old_min"] + info["tol_x"])) == info["n_lo"] + 2)
+        seen_hi = (rp.size
+                   and float(rp[-1]) > max(info["new_max"], info["old_max"]) + info["tol_x"])
+        if alo == info["n_lo"]:
+            seen_lo = False
+        if ahi == info["n_hi"]:
+            seen_hi = False
+        if seen_lo:
             applicable.append((D6, f"numpy.arange({info['new_min']!r}, {info['old_min']!r}, "
                                f"step) has {alo} elements for pointsMin={info['p_min']} "
                                f"(last {last!r} vs old lower end {info['old_min']!r})"))
-        if ahi != info["n_hi"]:
+        if seen_hi:
             applicable.append((D7, f"numpy.arange(oldMax+step, {info['new_max']!r}+step, "
                                f"step) has {ahi} elements for pointsMax={info['p_max']}: "
                                f"the table ends one step beyond the requested newMax"))
         # the previous extension did not land on its newMax exactly (arange rounding), so
         # the same newMax is now 'beyond' the table by a few ulp: step below the spacing
         # of floats, duplicate abscissae
-        if exc is not None and real.hasInterpolation() and info["p_max"] > 0 and \
+        if unsorted and real.hasInterpolation() and info["p_max"] > 0 and \
                 0 < info["new_max"] - float(real._rangeMax) <= info["tol_x"]:
             applicable.append((D7, f"the table ends at {float(real._rangeMax)!r}, "
                                f"{info['new_max'] - float(real._rangeMax):.2e} below the newMax "
@@ -366,8 +381,8 @@ def _applicable(ctx, real, info, exc, batches):
                            f"empty block as well; {type(real).__mro__[1].__name__} returns "
                            f"{fn.rows_for_empty} row(s) for an empty input, so abscissae and "
                            "values no longer line up"))
-        if exc is None and real.hasInterpolation() and info["p_max"] > 0:
-            rp = np.asarray(real._interpolationPoints, dtype=float)
+    if info.get("op") == "extend":
+        if not unsorted and real.hasInterpolation() and info["p_max"] > 0:
             top = np.diff(rp[-(info["p_max"] + 2):])
             if abs(float(rp[-1]) - info["new_max"]) <= info["tol_x"] and \
                     np.any(top <= info["tol_x"]):
@@ -376,13 +391,13 @@ def _applicable(ctx, real, info, exc, batches):
                                    f"{info['new_max']!r}: an earlier extension ended a few ulp "
                                    "short of the same newMax (arange rounding) and the "
                                    "remainder was extended again"))
-    if info.get("adaptive") and fn.R == 1 and any(
+    if info.get("adaptive") and not emptied and not unsorted and fn.R == 1 and any(
             b[0].ndim >= 1 and np.any(fn.bad(b[0])) and not np.all(fn.bad(b[0]))
             for b in batches):
         applicable.append((D5, "the direct evaluations of this call contain finite and "
                            "non-finite values of a scalar function; the finite ones were not "
                            "registered, so the adaptive update is not the one that is due"))
-    if fn.R == 1 and info.get("new_rows_nonfinite", 0) > 0:
+    if fn.R == 1 and info.get("new_rows_nonfinite", 0) > 0 and emptied:
         applicable.append((D4, f"{info['new_rows_nonfinite']} of the new scalar table values "
                            "are non-finite; only those points may be left out"))
     return applicable
@@ -423,6 +438,9 @@ def _compare_table(ctx, real, model, info, exc, what, applicable):
         or "boolean index did not match" in str(exc))
     if problem is None and not (table_exc and applicable):
         return True
+    if exc is None and applicable:
+        ctx.taint = applicable[0][0]      # the damaged table is adopted; later symptoms
+        #                                   (near-duplicate abscissae) belong to this
     if exc is not None:
         problem = f"raised {exc!r}" + ("; " + problem if problem else "")
     if applicable:
@@ -597,6 +615,13 @@ def _judge_call(ctx, real, model_before, pr, res, exc, batches, x_in, x_copy, wh
             ctx.acc_ratio[deriv] = max(ctx.acc_ratio[deriv], worst)
             if not np.all(err <= accr[j]):
                 k = int(np.nanargmax(ratio))
+                taint = getattr(ctx, "taint", None)
+                if taint and model_before.get("hmin_rel", 1.0) < 1e-9:
+                    ctx.add(taint, f"{what}: consequence of the damaged table (abscissae "
+                            f"{model_before['hmin_rel']:.1e} apart, relative): inside the "
+                            f"table the result deviates from the function by "
+                            f"{float(err[k]):.3e}, spline bound {float(accr[j][k]):.3e}")
+                    return
                 ctx.add(f"{name}-accuracy-bound",
                         f"{what}: inside the table the {'value' if not deriv else f'derivative {deriv}'} "
                         f"deviates from the underlying function by {float(err[k]):.3e}, spline "
@@ -641,6 +666,8 @@ W_DOMAIN = 12.0
 def _before(model, use_interp=True):
     return {"has_table": model.has_table, "uniform": _modes_uniform(model),
             "modes": (model.lower, model.upper), "use_interp": use_interp,
+            "hmin_rel": float(np.min(np.diff(model.xs)) / (np.max(np.abs(model.xs)) + 1e-300))
+            if model.has_table else 1.0,
             "xmin": model.xmin if model.has_table else None,
             "xmax": model.xmax if model.has_table else None}
 
@@ -730,6 +757,13 @@ def _op_eval(ctx, rng, real, model, fn, deriv, shape=None, poscls=None, use_inte
         shape = "1d"
     if poscls is None:
         poscls = str(rng.choice(["inside", "below", "above", "mixed", "mixed", "outside"]))
+    if deriv and getattr(fn, "fd_scalar_only", False) and shape != "scalar":
+        # FreeEnergy's implementation takes 0-d/1-D temperatures only; the difference
+        # stencil of a 1-D input is 2-D
+        if model.has_table:
+            poscls, use_interp = "inside", True
+        else:
+            shape = "scalar"
     if x is None:
         x, poscls = _gen_input(rng, model, fn, poscls, shape)
     xc = np.array(x, dtype=float)
@@ -1212,12 +1246,14 @@ def _sub_setup(case):
     pristine.disableAdaptiveInterpolation()
 
     def call(x):
-        r = np.asarray(pristine._functionImplementation(x), dtype=float)
-        return r.reshape(np.shape(x) + (nf + 1,))
+        x = np.asarray(x, dtype=float)
+        r = np.asarray(pristine._functionImplementation(x.reshape(-1)), dtype=float)
+        return r.reshape(x.shape + (nf + 1,))
     fn = M.OpaqueFunction(nf + 1, call, 9.5)
     fn.rows_for_empty = int(np.shape(pristine._functionImplementation(np.array([])))[0])
     fn.spec = {"center": 5.5, "W": 3.0}
     fn.fd = (1e-12, 1.0)
+    fn.fd_scalar_only = True
 
     def factory():
         o = mk()
